@@ -142,7 +142,7 @@ type spec struct {
 var ops = []string{"Select", "SelectDone", "SelectRowid", "IndexedSelect", "IndexedSelectEq", "PKSelect", "PKSelect-wr", "Columns", "Select-wr", "IndexedSelect-wr"}
 var exits = []string{"normal", "normal", "stop", "error-column", "error-table", "error-index", "fault", "panic"}
 var sideKinds = []string{"commit-attempt", "commit-attempt", "other-file-open-read-close", "peer-read", "peer-hold", "peer-release",
-	"same-process-open", "same-process-read", "same-process-close", "same-process-open-close", "probe", "same-handle-nested-call", "same-process-close-then-read", "gc", "gc", "open-while-writer-pending", "open-while-writer-pending"}
+	"same-process-open", "same-process-read", "same-process-close", "same-process-open-close", "probe", "same-handle-nested-call", "same-process-close-then-read", "gc", "gc", "open-while-writer-pending", "open-while-writer-pending", "driver-failed-query", "driver-failed-query"}
 
 func TestC06Held(t *testing.T) {
 	vt.Exec(t, vt.Check[spec]{
@@ -216,6 +216,7 @@ func run(r *vt.Run, t vt.TB, s spec) {
 
 	var second *sqlittle.DB // another handle on the same file in this process
 	var kept []*sqlittle.DB // more of them, closed after the call
+	var pool *sql.DB        // database/sql on the same file
 	peerHolding := false
 	lockLost := "" // set when a same-process action has (by POSIX rules) dropped our lock
 	inOp := false
@@ -432,6 +433,39 @@ func run(r *vt.Run, t vt.TB, s spec) {
 				harness("commit: %v", err)
 			}
 			env.O.Exec("w", "ROLLBACK")
+		case "driver-failed-query":
+			// the database/sql driver is asked for something it has to refuse
+			// (unknown table, unknown column, not a SELECT, a syntax error) on
+			// the same file; whatever it opened for that must be given back
+			// properly - a descriptor left to the garbage collector takes the
+			// process' locks along when it is finalised
+			if pool == nil {
+				var err error
+				if pool, err = sql.Open("sqlittle", path); err != nil {
+					harness("sql.Open: %v", err)
+					return
+				}
+			}
+			for _, q := range []string{"SELECT * FROM nosuchtable", "SELECT nosuchcolumn FROM t", "CREATE TABLE x (a)", "SELECT FROM t"} {
+				if rows, err := pool.Query(q); err == nil {
+					for rows.Next() {
+					}
+					rows.Close()
+				}
+				if st, err := pool.Prepare(q); err == nil {
+					if rows, err := st.Query(); err == nil {
+						rows.Close()
+					}
+					st.Close()
+				}
+			}
+			runtime.GC()
+			time.Sleep(3 * time.Millisecond)
+			runtime.GC()
+			time.Sleep(time.Millisecond)
+			if inOp {
+				classes["side:driver-failed-query-inside-read"] = true
+			}
 		case "same-process-open-close":
 			if h, err := sqlittle.Open(path); err == nil {
 				h.Close()
@@ -665,6 +699,9 @@ func run(r *vt.Run, t vt.TB, s spec) {
 	}
 	for _, h := range kept {
 		h.Close()
+	}
+	if pool != nil {
+		pool.Close()
 	}
 	d.Close()
 
